@@ -108,11 +108,11 @@ impl vstd::std_specs::convert::FromSpecImpl<(String, u16)> for TargetAddress {
         ret.is_ok() ==> opt_ta_view(ret.unwrap()) == addr_parse(buf@).unwrap(),
 //@ end
 
-//@ hint decode_address before `if buf.is_empty() {`
+//@ hint decode_address before `buf.is_empty()`
     let ghost b0 = buf@;
 //@ end
 
-//@ hint decode_address before `match tag {`
+//@ hint decode_address before `match tag`
     proof { assert(buf@ =~= b0.subrange(2, b0.len() as int)); }
 //@ end
 
@@ -120,25 +120,25 @@ impl vstd::std_specs::convert::FromSpecImpl<(String, u16)> for TargetAddress {
             proof { assert(buf@.subrange(0, len - 2) =~= b0.subrange(2, len as int)); }
 //@ end
 
-//@ hint decode_address before `let port = buf.get_u16();` nth=0
+//@ hint decode_address before `buf.get_u16()` nth=0
             proof {
                 assert(buf@ =~= b0.subrange(len as int, b0.len() as int));
                 assert(be16(buf@) == be16(b0.subrange(len as int, len + 2)));
             }
 //@ end
 
-//@ hint decode_address before `let host = buf.get_u32();`
+//@ hint decode_address before `buf.get_u32()`
             proof { assert(be32(buf@) == be32(b0.subrange(2, 6))); }
 //@ end
 
-//@ hint decode_address before `let port = buf.get_u16();` nth=1
+//@ hint decode_address before `buf.get_u16()` nth=1
             proof {
                 assert(buf@ =~= b0.subrange(6, b0.len() as int));
                 assert(be16(buf@) == be16(b0.subrange(6, 8)));
             }
 //@ end
 
-//@ hint decode_address before `let port = buf.get_u16();` nth=2
+//@ hint decode_address before `buf.get_u16()` nth=2
             proof {
                 assert(host@ =~= b0.subrange(2, 18));
                 assert(buf@ =~= b0.subrange(18, b0.len() as int));
@@ -155,7 +155,7 @@ impl vstd::std_specs::convert::FromSpecImpl<(String, u16)> for TargetAddress {
         addr_repr(opt_ta_view(match addr { Some(a) => Some(*a), None => None })),
 //@ end
 
-//@ hint encode_address before `let str = string_as_bytes(host);`
+//@ hint encode_address before `string_as_bytes(host)`
             proof { axiom_string_utf8(*host); }
 //@ end
 
@@ -218,7 +218,7 @@ pub open spec fn head_total(b: Seq<u8>) -> Option<Option<nat>> {
             ret.is_ok() && ret.unwrap() == Some(head_total(buf.bview()).unwrap().unwrap() as usize),
 //@ end
 
-//@ hint Frame::read_head before `let magic = buf.get_u32();`
+//@ hint Frame::read_head before `buf.get_u32()`
         proof {
             let b0 = buf.bview();
             assert(b0.subrange(4, b0.len() as int).subrange(4, b0.len() - 4).subrange(0, 2) =~= b0.subrange(8, 10)) by {
@@ -239,27 +239,27 @@ pub open spec fn head_total(b: Seq<u8>) -> Option<Option<nat>> {
         },
 //@ end
 
-//@ hint Frame::from_buffer before `if buf.len() < 12 {`
+//@ hint Frame::from_buffer before `buf.len() < 12`
         let ghost b0 = buf@;
 //@ end
 
-//@ hint Frame::from_buffer before `let magic = head.get_u32();`
+//@ hint Frame::from_buffer before `head.get_u32()` nth=0
         proof { assert(be32(head@) == be32(b0)); }
 //@ end
 
-//@ hint Frame::from_buffer before `let session_id = head.get_u32();`
+//@ hint Frame::from_buffer before `head.get_u32()` nth=1
         proof { assert(head@ =~= b0.subrange(4, 12)); assert(be32(head@) == be32(b0.subrange(4, 8))); }
 //@ end
 
-//@ hint Frame::from_buffer before `let attr_len = head.get_u16() as usize;`
+//@ hint Frame::from_buffer before `head.get_u16()` nth=0
         proof { assert(head@ =~= b0.subrange(8, 12)); assert(be16(head@) == be16(b0.subrange(8, 10))); }
 //@ end
 
-//@ hint Frame::from_buffer before `let body_len = head.get_u16() as usize;`
+//@ hint Frame::from_buffer before `head.get_u16()` nth=1
         proof { assert(head@ =~= b0.subrange(10, 12)); assert(be16(head@) == be16(b0.subrange(10, 12))); }
 //@ end
 
-//@ hint Frame::from_buffer before `let mut frame = Self::from_body(body);`
+//@ hint Frame::from_buffer before `Self::from_body(body)`
         proof {
             assert(attr@ =~= b0.subrange(12, 12 + attr_len));
             assert(body@ =~= b0.subrange(12 + attr_len, 12 + attr_len + body_len));
@@ -364,7 +364,7 @@ pub open spec fn complete_prefix(s: Seq<u8>) -> Option<nat> {
             decreases self.inner.inp().len(),
 //@ end
 
-//@ hint StreamFrameReader::read before `let buf = buf.split_to(ret).freeze();`
+//@ hint StreamFrameReader::read before `buf.split_to(ret)`
                         proof {
                             let s = old(self).stream();
                             assert(s =~= buf@ + self.inner.inp());
